@@ -332,8 +332,54 @@ def _enum_eq(negate):
                     if va == vb:
                         c = mk_or(c, mk_and(ga, gb))
             return mk_not(c) if negate else c
-        return fl(ctx)
+        r = fl(ctx)
+        if r is NotImplemented:
+            # derived / std structural equality: all fields, all elements (floats by ==)
+            for _ in range(3):
+                a, b = val(a), val(b)
+            try:
+                e = structural_eq(ctx, a, b)
+            except Unsupported:
+                return NotImplemented
+            return mk_not(e) if negate else e
+        return r
     return f
+
+
+def structural_eq(ctx, a, b):
+    """`a == b` for values built from floats: structs and arrays field by field, vectors by length and element by element"""
+    it = ctx.interp
+    if isinstance(a, tuple) and isinstance(b, tuple):
+        if a[0] == 'ic' or b[0] == 'ic' or a[0] in ('len', 'i+', 'i-') or b[0] in ('len', 'i+', 'i-'):
+            return mk_icmp('eq', a, b)
+        return mk_fcmp('eq', a, b)
+    if isinstance(a, Struct) and isinstance(b, Struct) and a.path == b.path and len(a.fields) == len(b.fields):
+        c = TRUE
+        for x, y in zip(a.fields, b.fields):
+            c = mk_and(c, structural_eq(ctx, x, y))
+        return c
+    if isinstance(a, Tup) and isinstance(b, Tup) and len(a.fields) == len(b.fields):
+        c = TRUE
+        for x, y in zip(a.fields, b.fields):
+            c = mk_and(c, structural_eq(ctx, x, y))
+        return c
+    if isinstance(a, Arr) and isinstance(b, Arr) and len(a.elems) == len(b.elems):
+        c = TRUE
+        for x, y in zip(a.elems, b.elems):
+            c = mk_and(c, structural_eq(ctx, x, y))
+        return c
+    if isinstance(a, VecV) and isinstance(b, VecV) and isinstance(a.seq, SeqSym) and isinstance(b.seq, SeqSym):
+        A, B = a.seq.term(), b.seq.term()
+        i = it.fresh_sym('ι')
+        ea = it.seq_get(a.seq, i, ctx.state)
+        eb = it.seq_get(b.seq, i, ctx.state)
+        body = structural_eq(ctx, ea, eb)
+        wa = ('stream', 'src', ('view', A, iconst(0), ('len', A)), ('str', 'ref'))
+        wb = ('stream', 'src', ('view', B, iconst(0), ('len', B)), ('str', 'ref'))
+        return mk_and(mk_icmp('eq', ('len', A), ('len', B)), ('all', ('stream', 'zip', wa, wb), i, body))
+    if isinstance(a, Opaque) and isinstance(b, Opaque):
+        return ('pred', 'eq', a.term, b.term)
+    raise Unsupported('structural equality of %s and %s' % (type(a).__name__, type(b).__name__))
 
 
 MODELS['std::cmp::PartialEq::eq'] = _enum_eq(False)
@@ -392,14 +438,37 @@ def _(ctx):
     return NotImplemented
 
 
+def _default_of(ty):
+    k = ty.get('k') if ty else None
+    if k == 'float':
+        return ('fc', 0)
+    if k in ('uint', 'int'):
+        return iconst(0)
+    if k == 'bool':
+        return FALSE
+    if k == 'adt' and ty['path'] == 'std::vec::Vec':
+        return VecV(SeqLit(()))
+    if k == 'adt' and ty['path'] == OPTION:
+        return none()
+    if k == 'array' and ty.get('len') is not None:
+        e = _default_of(ty['ty'])
+        return None if e is None else Arr(tuple(e for _ in range(ty['len'])))
+    if k == 'tuple':
+        es = [_default_of(t) for t in ty['tys']]
+        return None if any(e is None for e in es) else Tup(tuple(es))
+    return None
+
+
 @model('std::default::Default::default')
 def _(ctx):
+    from .facts import subst_ty
     dt = ctx.dest_ty
-    if dt is not None and dt['k'] == 'float':
-        return ('fc', 0)
-    if dt is not None and dt['k'] == 'adt' and dt['path'] == 'std::vec::Vec':
-        return VecV(SeqLit(()))
-    return NotImplemented
+    if dt is None and ctx.fn.get('args'):
+        dt = ctx.fn['args'][0]
+    if dt is not None and ctx.frame is not None:
+        dt = subst_ty(dt, ctx.frame.subst)
+    v = _default_of(dt)
+    return NotImplemented if v is None else v
 
 
 # ---------------------------------------------------------------- Option / Result
@@ -808,6 +877,8 @@ def stream_len(it, st, s):
         return stream_len(it, st, s.parts[0])
     if k == 'prefix':
         return s.parts[1]
+    if k == 'fromfn':
+        return stream_len(it, st, s.parts[0])
     raise Unsupported('length of stream %s' % k)
 
 
@@ -854,6 +925,38 @@ def stream_elem(ctx, s, i):
         return Tup((it.iadd(s.parts[1], i), stream_elem(ctx, s.parts[0], i)))
     if k == 'prefix':
         return stream_elem(ctx, s.parts[0], i)
+    if k == 'fromfn':
+        inner, cell, kcap = s.parts
+        cv = it.read(ctx.state, cell.root, cell.path)
+        caps = list(cv.captures)
+        orig = caps[kcap]
+        adv = stream_advance(it, inner, i)
+        if isinstance(orig, Ref):
+            keep = it.read(ctx.state, orig.root, orig.path)
+            it.write(ctx.state, orig.root, orig.path, adv)
+        else:
+            caps[kcap] = adv
+            it.write(ctx.state, cell.root, cell.path, Closure(cv.path, tuple(caps), cv.subst))
+        try:
+            # element i exists (the caller asks for i < len): the source has a next element at that position
+            ne_ = stream_nonempty(it, ctx.state, adv)
+            if ne_ not in (TRUE, FALSE):
+                ctx.state = ctx.state.with_fact(ne_)
+        except Unsupported:
+            pass
+        r = it.call_closure(ctx, cell, [])
+        # put the source back: its position is a function of the element index, not carried state
+        if isinstance(orig, Ref):
+            it.write(ctx.state, orig.root, orig.path, keep)
+        else:
+            cv2 = it.read(ctx.state, cell.root, cell.path)
+            caps2 = list(cv2.captures)
+            caps2[kcap] = orig
+            it.write(ctx.state, cell.root, cell.path, Closure(cv2.path, tuple(caps2), cv2.subst))
+        g, payload = _opt_parts(ctx, r)
+        if payload is None:
+            raise Unsupported('iter::from_fn closure never yields')
+        return payload
     if k == 'zip':
         return Tup((stream_elem(ctx, s.parts[0], i), stream_elem(ctx, s.parts[1], i)))
     if k == 'lit':
@@ -1073,6 +1176,25 @@ def _(ctx):
     # the tail is only meaningful under `ne`; an exhausted iterator is never read again on that path
     it.write(ctx.state, cell.root, cell.path, stream_tail(it, ctx.state, s))
     return opt(ne, head)
+
+
+def stream_advance(it, s, k):
+    """the stream after k elements have been taken"""
+    kind = s.kind
+    if kind == 'src':
+        sl, mode = s.parts
+        return Stream('src', (SliceRef(sl.root, sl.path, it.iadd(sl.start, k), sl.end, sl.mut), mode))
+    if kind == 'range':
+        return Stream('range', (it.iadd(s.parts[0], k), s.parts[1]))
+    if kind in ('cloned',):
+        return Stream(kind, (stream_advance(it, s.parts[0], k),))
+    if kind == 'map':
+        return Stream(kind, (stream_advance(it, s.parts[0], k), s.parts[1]))
+    if kind == 'enumerate':
+        return Stream(kind, (stream_advance(it, s.parts[0], k), it.iadd(s.parts[1], k)))
+    if kind == 'zip':
+        return Stream(kind, (stream_advance(it, s.parts[0], k), stream_advance(it, s.parts[1], k)))
+    raise Unsupported('advance of stream %s' % kind)
 
 
 def drop_last(it, st, s):
@@ -1300,6 +1422,13 @@ def _(ctx):
     s = _stream_arg(ctx, ctx.args[0])
     init = ctx.args[1]
     st0 = ctx.state
+    cn0 = _concrete_len(stream_len(it, st0, s))
+    if cn0 is not None and cn0 <= 16:
+        # a statically known, finite element set (fixed-size arrays): apply the step element by element
+        acc_ = init
+        for i_ in range(cn0):
+            acc_ = it.call_closure(ctx, ctx.args[2], [acc_, stream_elem(ctx, s, iconst(i_))])
+        return acc_
     acc = it.fresh_sym('acc')
     ivar, r, sub = _closure_on_elem(ctx, s, ctx.args[2], extra_args=(acc,))
     ctx.state = State(sub.state.store, st0.guard, st0.facts)
@@ -1489,9 +1618,20 @@ def _(ctx):
         else:
             okseq = SeqScan(seq.src, seq.ivar, seq.state_syms, seq.init, seq.next_state, payload, mk_not(okg), seq.n)
         return Enum(RESULT, ((allok, 0, (VecV(okseq),)), (mk_not(allok), 1, (Opaque(('collect_err', it.abstract(ctx.state, s))),))))
+    if dt is not None and dt['k'] == 'adt' and dt['path'] in it.facts.adts:
+        # collect() into a type of this crate: its own FromIterator impl does the collecting
+        from .facts import subst_ty
+        dty = subst_ty(dt, ctx.frame.subst) if ctx.frame is not None else dt
+        hit = it.facts.find_impl_method('std::iter::FromIterator', None, dty, 'from_iter')
+        if hit is not None:
+            im, b, f = hit
+            sub = dict(b)
+            # the method's own generic parameter (the iterator type) stays unbound: the argument is the stream itself
+            return it.call_fn(f, [s], ctx, sub)
     seq = collect_seq(ctx, s)
+    # the stores the pipeline reads from may be locals that are gone by the time the function returns: keep their values
     it.events.append({'kind': 'collect', 'fn': ctx.frame.f['path'] if ctx.frame else None, 'line': ctx.line,
-                      'seq': seq, 'stream': s})
+                      'seq': seq, 'stream': s, 'store': dict(ctx.state.store)})
     return VecV(seq)
 
 
@@ -2345,14 +2485,58 @@ def close_build_loop_generic(it, frame, summ):
         return None
     val = qb.val
     absv = it.abstract(bs, val)
-    if any(x == ('seq', qf.name) for x in subterms(absv)):
-        return None
+    Qt = ('seq', qf.name)
+    prev_state = []          # (field, state symbol) : the body reads fields of the piece pushed last
+    if any(x == Qt for x in subterms(absv)):
+        # the vector under construction may be looked at only through its length and its last element
+        # (`out.last()`): that element is the previous iteration's output — a scan state whose next value is this output
+        if not (isinstance(q0, SeqLit) and not q0.elems):
+            return None
+        lenq = ('len', Qt)
+        lastidx = it.isub(lenq, iconst(1))
+        fields = {}
+        ok = True
+        for x in subterms(absv):
+            if x == Qt:
+                continue
+            if x[0] == 'len' and x[1] == Qt:
+                continue
+            if x[0] == 'elem' and x[1] == Qt:
+                if x[2] == lastidx and isinstance(x[3], str) and x[3]:
+                    fields[x[3]] = it.fresh_sym('prev.' + x[3])
+                else:
+                    ok = False
+        # every occurrence of the sequence symbol must be inside one of those two forms
+        def occurrences(t, inside):
+            if t == Qt:
+                return 0 if inside else 1
+            if not isinstance(t, tuple):
+                return 0
+            ins = (t[0] == 'len' and len(t) > 1 and t[1] == Qt) or (t[0] == 'elem' and len(t) > 2 and t[1] == Qt and t[2] == lastidx)
+            return sum(occurrences(y, ins) for y in t[1:] if isinstance(y, tuple))
+        if not ok or occurrences(absv, False):
+            return None
+        if not isinstance(val, Struct):
+            return None
+        adt_ = it.facts.adts.get(val.path)
+        if adt_ is None:
+            return None
+        names = [f_['name'] for f_ in adt_['variants'][0]['fields']]
+        for fld, symb in fields.items():
+            if fld not in names:
+                return None
+            prev_state.append((fld, symb, val.fields[names.index(fld)]))
     st0 = summ.entry_state
     n = stream_len(it, st0, i0)
 
     def remap(v):
-        return recanon_value(it, it.subst_value(v, mapping))
-    if not scal:
+        v = it.subst_value(v, mapping)
+        if prev_state:
+            m2 = {('elem', Qt, it.isub(('len', Qt), iconst(1)), fld): symb for fld, symb, _ in prev_state}
+            v = it.subst_value(v, m2)
+            v = it.subst_value(v, {('len', Qt): iota})
+        return recanon_value(it, v)
+    if not scal and not prev_state:
         body = SeqMap(i0, iota, remap(val), 'loop', n)
     else:
         nxt = []
@@ -2361,8 +2545,10 @@ def close_build_loop_generic(it, frame, summ):
                 nxt.append(remap(it.read(bs, r, p)))
             except Unsupported:
                 return None
-        body = SeqScan(i0, iota, tuple(((r, p), fv) for r, p, fv, iv in scal), tuple(iv for r, p, fv, iv in scal),
-                       tuple(nxt), remap(val), None, n)
+        syms = [((r, p), fv) for r, p, fv, iv in scal] + [((('prev',), (('f', 0),)), symb) for fld, symb, _ in prev_state]
+        inits = [iv for r, p, fv, iv in scal] + [('undef', 'no piece before the first') for _ in prev_state]
+        nxt += [remap(outf) for fld, symb, outf in prev_state]
+        body = SeqScan(i0, iota, tuple(syms), tuple(inits), tuple(nxt), remap(val), None, n)
     value = body if (isinstance(q0, SeqLit) and not q0.elems) else SeqConcat((q0, body))
     summ.recognised = 'BUILD-TRAVERSAL'
     it.events.append({'kind': 'scan' if scal else 'collect', 'fn': frame.f['path'], 'line': summ.line, 'seq': body, 'stream': i0, 'from_loop': True})
@@ -2737,3 +2923,212 @@ def _(ctx):
 def _(ctx):
     a, b = ctx.args
     return mk_sel(mk_icmp('ge', a, b), ctx.interp.isub(a, b), ctx.interp.isub(b, a))
+
+
+def close_inplace_loop(it, frame, summ):
+    """IN-PLACE RECURRENCE: a loop that walks positions c = c0, c0+1, … < end of one vector and rewrites exactly the element
+    at c from (the element at c as it was, the element just written at c−1, carried scalars) leaves
+        v[..c0] unchanged  ++  scan over v0[c0..end): out_ι = g(v0[c0+ι], previous output, scalars)
+    (`for i in 1..v.len() { v[i].x = v[i-1].x.max(v[i].x) }`, `for k in it_mut { m = m.max(k.x); k.x = m }`)."""
+    from .terms import subst_term, subterms
+    seqs = [(r, p, fv, iv) for r, p, fv, iv in summ.carried if isinstance(fv, SeqSym)]
+    streams = [(r, p, fv, iv) for r, p, fv, iv in summ.carried if isinstance(fv, Stream)]
+    scal = [(r, p, fv, iv) for r, p, fv, iv in summ.carried if isinstance(fv, tuple) and fv and fv[0] == 'sym']
+    if len(seqs) != 1 or len(streams) != 1 or len(seqs) + len(streams) + len(scal) != len(summ.carried) or len(summ.back_states) != 1:
+        return None
+    (qr, qp, qf, q0), (ir, ip, if_, i0) = seqs[0], streams[0]
+    if not isinstance(i0, Stream) or not isinstance(q0, SeqSym):
+        return None
+    cur = []
+    if not _stream_cursors(i0, if_, cur) or len(cur) != 1:
+        return None
+    c0, c = cur[0]
+    bs = summ.back_states[0]
+    try:
+        ne = stream_nonempty(it, summ.head_state, if_)
+        if [_lit(l[0], l[1]) for l in bs.guard] != [ne]:
+            return None
+        ib = it.read(bs, ir, ip)
+        tail = stream_tail(it, bs, if_)
+        qb = it.read(bs, qr, qp)
+    except Unsupported:
+        return None
+    if it.abstract(bs, ib) != it.abstract(bs, tail):
+        return None
+    adv = []
+    if not _stream_cursors(if_, tail, adv) or adv != [(c, it.iadd(c, iconst(1)))]:
+        return None
+    # which position is written: the cursor itself (index loop over a range) or the slice cursor of an iter_mut
+    if not (isinstance(qb, SeqUpd) and qb.seq == qf):
+        return None
+    if qb.idx != c:
+        return None
+    # the bound must be the vector's length and the walk must stay inside it
+    hi = None
+    if ne[0] == 'icmp' and ne[1] == 'lt' and ne[2] == c:
+        hi = ne[3]
+    if hi is None or hi != it.seq_len(q0):
+        return None
+    if c0[0] != 'ic' or not (0 <= c0[1] <= 4):
+        return None
+    exits = [(t, s_) for t, ss in summ.exit_states.items() for s_ in ss]
+    if len(exits) != 1:
+        return None
+    et, es = exits[0]
+    if [_lit(l[0], l[1]) for l in es.guard] != [mk_not(ne)]:
+        return None
+    try:
+        if it.read(es, qr, qp) != qf:
+            return None
+        for r, p, fv, iv in scal:
+            if it.read(es, r, p) != fv:
+                return None
+    except Unsupported:
+        return None
+    val = qb.val
+    absv = it.abstract(bs, val)
+    Qh, Q0 = ('seq', qf.name), q0.term()
+    cm1 = it.isub(c, iconst(1))
+    prev_fields = {}
+    for x in subterms(absv):
+        if x[0] == 'elem' and x[1] == Qh:
+            if x[2] == c:
+                continue
+            if x[2] == cm1 and isinstance(x[3], str):
+                prev_fields.setdefault(x[3], it.fresh_sym('prev.' + x[3] if x[3] else 'prev'))
+                continue
+            return None
+        if x[0] == 'len' and x[1] == Qh:
+            return None
+    if prev_fields and c0[1] < 1:
+        return None
+
+    def occurrences(t, inside):
+        if t == Qh:
+            return 0 if inside else 1
+        if not isinstance(t, tuple):
+            return 0
+        ins = t[0] == 'elem' and len(t) > 2 and t[1] == Qh
+        return sum(occurrences(y, ins) for y in t[1:] if isinstance(y, tuple))
+    if occurrences(absv, False):
+        return None
+    iota = it.fresh_sym('ι')
+    pos = it.iadd(c0, iota)
+    m1 = {}
+    for x in subterms(absv):
+        if x[0] == 'elem' and x[1] == Qh:
+            m1[x] = ('elem', Q0, pos, x[3]) if x[2] == c else prev_fields[x[3]]
+    m1[c] = pos
+
+    def remap(v):
+        return recanon_value(it, it.subst_value(it.subst_value(v, {k_: v_ for k_, v_ in m1.items() if k_ != c}), {c: pos}))
+    if not isinstance(val, Struct):
+        return None
+    adt_ = it.facts.adts.get(val.path)
+    names = [f_['name'] for f_ in adt_['variants'][0]['fields']] if adt_ else []
+    syms, inits, nxt = [], [], []
+    for r, p, fv, iv in scal:
+        syms.append(((r, p), fv))
+        inits.append(iv)
+        try:
+            nxt.append(remap(it.read(bs, r, p)))
+        except Unsupported:
+            return None
+    for fld, symb in prev_fields.items():
+        if fld not in names:
+            return None
+        syms.append(((('prev',), (('f', names.index(fld)),)), symb))
+        inits.append(('elem', Q0, iconst(c0[1] - 1), fld))
+        nxt.append(remap(val.fields[names.index(fld)]))
+    st0 = summ.entry_state
+    n = it.isub(it.seq_len(q0), c0)
+    src = Stream('src', (SliceRef(qr, qp, c0, it.seq_len(q0), False), 'ref'))
+    if not syms and c0[1] == 0:
+        # nothing is carried from one position to the next: an elementwise rewrite of the whole vector
+        body = SeqMap(q0, iota, remap(val), 'for_each', n)
+        summ.recognised = 'FULL-TRAVERSAL (in place)'
+        return {'exit': et, 'root': qr, 'path': qp, 'value': body}
+    body = SeqScan(src, iota, tuple(syms), tuple(inits), tuple(nxt), remap(val), None, n)
+    prefix = SeqLit(tuple(it.seq_get(q0, iconst(k_), st0) for k_ in range(c0[1])))
+    value = body if c0[1] == 0 else SeqConcat((prefix, body))
+    summ.recognised = 'IN-PLACE RECURRENCE'
+    it.events.append({'kind': 'scan', 'fn': frame.f['path'], 'line': summ.line, 'seq': body, 'stream': src, 'from_loop': True, 'in_place': True,
+                      'over': q0})
+    return {'exit': et, 'root': qr, 'path': qp, 'value': value}
+
+
+@model('std::iter::from_fn')
+def _(ctx):
+    """`iter::from_fn(f)`: the stream of f()'s Some payloads; modelled when f's only state is one underlying iterator it
+    drains by `next()?` plus carried scalars — then it is a scan over that iterator (what `map` with a stateful closure is)."""
+    it = ctx.interp
+    clos = ctx.args[0]
+    cv = it.read(ctx.state, clos.root, clos.path) if isinstance(clos, Ref) else clos
+    if not isinstance(cv, Closure):
+        raise Unsupported('iter::from_fn of a non-closure')
+    inner = [(k_, c) for k_, c in enumerate(cv.captures) if isinstance(c, Stream) or (isinstance(c, Ref) and isinstance(it.read(ctx.state, c.root, c.path), Stream))]
+    if len(inner) != 1:
+        raise Unsupported('iter::from_fn whose closure does not drain exactly one captured iterator')
+    k_, c = inner[0]
+    s = c if isinstance(c, Stream) else it.read(ctx.state, c.root, c.path)
+    # by value capture: keep the closure, mark the captured stream as the source; `next` on it is handled by the scan machinery
+    cell = Ref(it.alloc(ctx.state, cv, 'fromfn'), (), True)
+    return Stream('fromfn', (s, cell, k_))
+
+
+@model('std::ops::RangeBounds::contains')
+def _(ctx):
+    """`range.contains(&x)` for ranges of floats given as a pair of `Bound`s, `a..b`, `a..=b`"""
+    it = ctx.interp
+    r = ctx.args[0]
+    if isinstance(r, Ref):
+        r = it.read(ctx.state, r.root, r.path)
+    x = scalar(ctx, ctx.args[1])
+    if x is None:
+        return NotImplemented
+
+    def side(b, lower):
+        if not (isinstance(b, Enum) and b.path == BOUND):
+            raise Unsupported('RangeBounds::contains on %s' % type(b).__name__)
+        c = FALSE
+        for g, var, f in b.alts:
+            if var == 2:
+                t = TRUE
+            else:
+                v = f[0]
+                if isinstance(v, Ref):
+                    v = it.read(ctx.state, v.root, v.path)
+                op = ('le' if var == 0 else 'lt')
+                t = mk_fcmp(op, v, x) if lower else mk_fcmp(op, x, v)
+            c = mk_or(c, mk_and(g, t))
+        return c
+    if isinstance(r, Tup) and len(r.fields) == 2:
+        return mk_and(side(r.fields[0], True), side(r.fields[1], False))
+    if isinstance(r, Struct) and r.path.split('::')[-1] == 'Range' and len(r.fields) == 2:
+        return mk_and(mk_fcmp('le', r.fields[0], x), mk_fcmp('lt', x, r.fields[1]))
+    return NotImplemented
+
+
+# ---------------------------------------------------------------- vec![a, b, …] as lowered by the current toolchain:
+#   b = Box::<[T; N]>::new_uninit();  (*ptr(b)).value.value.value = [a, b, …];  box_assume_init_into_vec_unsafe(b)
+@model('<std::boxed::Box<T>>::new_uninit')
+def _(ctx):
+    it = ctx.interp
+    slot = Struct('std::mem::MaybeUninit', (Tup(()), Struct('std::mem::ManuallyDrop', (Struct('std::mem::MaybeDangling', (UNINIT,)),))))
+    root = it.alloc(ctx.state, slot, 'box')
+    return Struct('std::boxed::Box', (Struct('std::ptr::Unique', (Ref(root, (), True),)), Tup(())))
+
+
+@model('std::boxed::box_assume_init_into_vec_unsafe')
+def _(ctx):
+    it = ctx.interp
+    b = ctx.args[0]
+    try:
+        r = b.fields[0].fields[0]
+        v = it.read(ctx.state, r.root, r.path)
+        arr = v.fields[1].fields[0].fields[0]
+    except Exception:
+        raise Unsupported('vec! lowering not recognised')
+    if not isinstance(arr, Arr):
+        raise Unsupported('vec! lowering: the boxed value is %s' % type(arr).__name__)
+    return VecV(SeqLit(tuple(arr.elems)))
